@@ -12,7 +12,7 @@ for v in os memfd inprocess; do
   esac
   (cd harness && cargo build --offline --target-dir target-$v $feat 2>&1 | tail -3)
 done
-for m in spec/*.tla; do
+(cd spec && for m in *.tla; do
   tla-sany "$m" >/dev/null 2>&1 || { echo "SANY failed on $m"; tla-sany "$m" | tail -20; exit 1; }
-done
+done)
 echo "setup ok"
